@@ -50,7 +50,7 @@ SEED_FILES = [CM, CP, EM, EP, SC, GE, SS, CS, ES, PS]
 # seeded changes that touch one of these files only in code the part does not translate (styled drawing is tied elsewhere)
 SEEDS_OUT_OF_SCOPE = {
     "C19-r3-1": "edits Scanline::bresenham_intersection (the triangle / polyline scanline code of C19), which is listed in "
-                "CurveSrc.untranslated; only Scanline::{new, new_empty, is_empty, next} are translated here",
+                "CurveSrc.untranslated; only Scanline::{new, new_empty, is_empty, next, draw} are translated here",
 }
 
 # (name, kind, file, old text, new text, theorems expected to break (subset check))
